@@ -2698,3 +2698,24 @@ Proof.
   split; [cbn; lra|]. right. cbn [v_periodic v_period]. split; [reflexivity|]. split; [lra|].
   rewrite (CV.C18.ValueProofs.pdiff_unique 360 (10 - 350) 20 (-1)); lra.
 Qed.
+
+(* distancePairs: element (i, j) of the vector value is the distance between atom i of group1 and atom j of group2, and
+   apply_force pushes those two atoms: the `distance` kernel on two one-atom groups, minimum image included *)
+Lemma cvc_grad_correct_distancePairs_elem cell pbc co e i j (s : SYS) :
+  (i < length s)%nat -> (j < length s)%nat -> a_mass (atom_at Rops s i) <> 0 -> a_mass (atom_at Rops s j) <> 0 ->
+  let gi := GAtoms [i] None None true in let gj := GAtoms [j] None None true in
+  image_ok pbc cell (gd_com Rops (gdata_of Rops s gi)) (gd_com Rops (gdata_of Rops s gj)) ->
+  v3norm2 Rops (pdist Rops pbc cell (gd_com Rops (gdata_of Rops s gi)) (gd_com Rops (gdata_of Rops s gj))) <> 0 ->
+  cvc_grad_correct cell (mkCvc co e (KDistance pbc) [gi; gj]) s.
+Proof.
+  intros Hi Hj Mi Mj gi gj Himg Hne.
+  apply cvc_grad_correct_distance; try assumption.
+  - unfold grp_ok, wf_group, group_mass_ok, fit_on, ids_ok, gi. cbn [fit_ids map]. repeat split; try discriminate.
+    + intros x [<-|[]]. exact Hi.
+    + intros x [<-|[]]. exact Hi.
+    + rewrite tsum_cons, tsum_nil. intros H. apply Mi. lra.
+  - unfold grp_ok, wf_group, group_mass_ok, fit_on, ids_ok, gj. cbn [fit_ids map]. repeat split; try discriminate.
+    + intros x [<-|[]]. exact Hj.
+    + intros x [<-|[]]. exact Hj.
+    + rewrite tsum_cons, tsum_nil. intros H. apply Mj. lra.
+Qed.
